@@ -129,7 +129,7 @@ func (s *DHSession) Parameter(rand io.Reader, _ *rsa.PublicKey) ([]byte, error) 
 	// Create a random parameter x and compute exchange parameter with the
 	// formula g^x mod p
 	r := make([]byte, s.paramSize)
-	if _, err := rand.Read(r); err != nil {
+	if _, err := io.ReadFull(rand, r); err != nil {
 		return nil, err
 	}
 	g := new(big.Int).SetInt64(int64(s.g))
